@@ -27,6 +27,7 @@ JudgeClip(c) ==
            Robust(p) == \A q \in Nbrs(p) : OutStack(c.a, q) = OutStack(c.a, p) /\ InVb(c.vb, q) = InVb(c.vb, p)
            bad == { p \in Samples(c.box) : B(p) # A(p) /\ Robust(p) }
            gv == PG!Violations(c.b.outp, 30, FALSE)   \* no digits are requested from clip_to_viewbox
+           rv == PG!RefViolations(c.b.outp)           \* ... nor a gradient that lost its last user
            \* exactness at the border itself (the samples stay 1/8 away from it): no painted layer of the
            \* result reaches beyond the viewBox by more than the 1/64 quantisation of the projection
            over == { i \in 1..Len(c.b.layers) :
@@ -38,6 +39,7 @@ JudgeClip(c) ==
                            IN "BAD:clip-render@" \o ToString(p[1]) \o "," \o ToString(p[2])
           ELSE IF over # {} THEN "BAD:clipped-layer-extends-outside-viewbox"
           ELSE IF gv # {} THEN "BAD:clipped-not-pico:" \o (CHOOSE v \in gv : TRUE)
+          ELSE IF rv # {} THEN "BAD:clipped-not-pico:" \o (CHOOSE v \in rv : TRUE)
           ELSE IF \E p \in Samples(c.box) : OutStack(c.a, p) # <<>> /\ ~InVb(c.vb, p) THEN "ok:clipped"
           ELSE "ok:nothing-outside"
 
